@@ -130,6 +130,17 @@ def rand_counts(rng, B, N, pattern):
                 if i == j:
                     for b in range(B):
                         c[b, i, j] = rng.randrange(0, 5) / 4.0
+            elif pattern == "signed":
+                # counts of either sign (negative object weights) whose bins may cancel: [3, -3, 0]
+                if rng.random() < 0.7:
+                    v = rng.randrange(1, 64) / 8.0
+                    bs = list(range(B)); rng.shuffle(bs)
+                    c[bs[0], i, j] = v
+                    if B >= 2 and rng.random() < 0.7:
+                        c[bs[1], i, j] = -v
+                    for b in bs[2:]:
+                        if rng.random() < 0.3:
+                            c[b, i, j] = rng.randrange(-32, 33) / 8.0
             else:  # sparse: every bin of every pair independently zero
                 if rng.random() < 0.55:
                     for b in range(B):
@@ -302,13 +313,17 @@ def hdf_specs(ctx, n):
     subsets = [(a, b, c) for a in (True, False) for b in (True, False) for c in (True, False) if a or b or c]
     # deterministic probe: Landy-Szalay without rd (dd + dr + rr)
     out = [dict(container="corrfunc", bins=2, patches=2, closed="right", auto=False, present=(True, False, True),
-                pattern="dense", dseed=11)]
+                pattern="dense", dseed=11),
+           dict(container="ncounts", bins=3, patches=3, closed="right", auto=False, present=(False, False, False),
+                pattern="signed", dseed=12),
+           dict(container="corrfunc", bins=2, patches=4, closed="left", auto=True, present=(True, False, False),
+                pattern="signed", dseed=13)]
     for i in range(n):
         container = "ncounts" if i % 9 == 8 else "corrfunc"
         out.append(dict(container=container, bins=rng.randrange(1, 6), patches=rng.randrange(1, 7),
                         closed=rng.choice(["left", "right"]), auto=rng.random() < 0.5,
                         present=subsets[i % 7] if container == "corrfunc" else (False, False, False),
-                        pattern=["sparse", "sparse", "zero", "onebin", "dense", "diag"][(i // 7) % 6],
+                        pattern=["sparse", "signed", "zero", "onebin", "dense", "diag", "signed"][(i // 7) % 7],
                         dseed=rng.randrange(10 ** 9)))
     return out
 
